@@ -225,6 +225,13 @@ pub fn observe(c: &Case, pools: &mut HashMap<usize, Arc<rayon::ThreadPool>>) -> 
     let mut runs: Vec<(u32, u64)> = handles.iter().map(|(t, (_, r))| (*t, r.load(Ordering::SeqCst))).collect();
     runs.sort();
     s.push_str(&format!("ok2={};runs={};", r2.is_ok() as u8, runs.iter().map(|(t, n)| format!("{}:{}", t, n)).collect::<Vec<_>>().join(",")));
+    // the same tree set up AGAIN, for another world (one ParSeq used with several worlds): every leaf once more,
+    // and the fresh world gets every default resource
+    let mut world2 = World::empty();
+    let r3 = catch_unwind(AssertUnwindSafe(|| if c.inside { ps.setup(&mut world2) } else { shred::RunNow::setup(&mut ps, &mut world2) }));
+    let setup2: Vec<String> = rec.take().iter().filter_map(|e| if let Ev::Setup(t) = e { Some(t.to_string()) } else { None }).collect();
+    let missing = rs.iter().filter(|r| !world2.has_value_raw(rid_of(map.locate(**r)))).count();
+    s.push_str(&format!("setup2={};setup2ok={};missing2={};", if setup2.is_empty() { "-".into() } else { setup2.join(",") }, r3.is_ok() as u8, missing));
     s
 }
 
